@@ -69,6 +69,35 @@ Theorem C15_framing_example :
   w_wire ex_q2_frag = w_wire ex_q2 /\ w_live ex_q2_frag = true /\ rd ex_q2_frag = rd ex_q2.
 Proof. exact framing_example. Qed.
 
+From Minimq Require Import WireInv Wire Healthy Owed.
+
+(* ---- the outbound side: what reaches the transport does not depend on how the transport cuts the writes ----
+   `owed o` is a function of the queues alone (Owed.v): the unwritten rest of the half-written entry, then every unsent
+   entry in service order.  One engine step, whatever number of bytes the transport accepts, moves bytes from the front
+   of `owed` to the end of the wire:  wire' ++ owed' = wire ++ owed  (every outcome except an error). *)
+Theorem C15_engine_step_conserves : forall st now w w' r,
+  WInv (w_sess w) -> next_step (s_ob (w_sess w)) = Some st ->
+  perform_outbound_step st now w = (w', r) -> not_failed r ->
+  w_wire w' ++ owed (s_ob (w_sess w')) = w_wire w ++ owed (s_ob (w_sess w)).
+Proof. exact step_conserves. Qed.
+
+(* at session level: accepting `n` more bytes of the entry in progress *)
+Theorem C15_written_prefix_leaves_owed : forall s st p bs w len n now,
+  WInv s -> next_step (s_ob s) = Some st -> prepare_step s st = PWrite p bs w len -> n <> 0 -> n <= len - w ->
+  let s2 := fst (set_written s p (w + n) len) in
+  owed (s_ob s) = takeN n (dropN w bs) ++ owed (s_ob s2) /\
+  (len <= w + n -> owed (s_ob (fst (complete_flush s2 p now))) = owed (s_ob s2)).
+Proof. exact engine_owed. Qed.
+
+(* hence a drain that comes to its end has put exactly `owed` on the wire — for EVERY script of partial writes *)
+Theorem C15_drain_writes_owed_any_fragmentation : forall fuel w w',
+  WInv (w_sess w) -> PQ w -> flush_outbound fuel w = (w', ODone tt) ->
+  w_wire w' = w_wire w ++ owed (s_ob (w_sess w)) /\ next_step (s_ob (w_sess w')) = None.
+Proof. exact flush_outbound_wire. Qed.
+
+Theorem C15_nothing_to_do_nothing_owed : forall o, next_step o = None -> owed o = [].
+Proof. exact owed_no_step. Qed.
+
 Print Assumptions C15_reader_relation_is_a_function.
 Print Assumptions C15_reader_chunking_independent.
 Print Assumptions C15_loop_refines_relation.
@@ -80,3 +109,7 @@ Print Assumptions C15_frame_length_from_stream.
 Print Assumptions C15_process_consumes_frame.
 Print Assumptions C15_reads_conserve_stream.
 Print Assumptions C15_framing_example.
+Print Assumptions C15_engine_step_conserves.
+Print Assumptions C15_written_prefix_leaves_owed.
+Print Assumptions C15_drain_writes_owed_any_fragmentation.
+Print Assumptions C15_nothing_to_do_nothing_owed.
